@@ -88,6 +88,35 @@ pub struct Func {
 }
 
 impl Func {
+    /// x86-64 frameless function that saves rbp in a slot more than 32767 * 8 bytes above the
+    /// body's stack pointer: framehop's rule `OffsetSpAndRestoreBp` stores that offset in an
+    /// `i16` field (known finding F26: the compact-unwind path gives up on such a function and
+    /// falls back to the frame pointer rule).
+    pub fn x64_rbp_slot_beyond_rule_field(&self) -> bool {
+        if self.shape != Shape::Frameless {
+            return false;
+        }
+        let mut after_fp: Option<u64> = None;
+        for i in &self.insns {
+            match i.eff {
+                Eff::PushFp => after_fp = Some(0),
+                Eff::PushOther => {
+                    if let Some(n) = after_fp.as_mut() {
+                        *n += 8;
+                    }
+                }
+                Eff::SubSp(n) => {
+                    if let Some(m) = after_fp.as_mut() {
+                        *m += n;
+                    }
+                }
+                Eff::None | Eff::Call | Eff::ClobberFp(_) => break,
+                _ => {}
+            }
+        }
+        after_fp.map_or(false, |n| n / 8 > 32767)
+    }
+
     pub fn len(&self) -> u64 {
         self.insns.iter().map(|i| i.bytes.len() as u64).sum()
     }
@@ -185,10 +214,16 @@ pub fn gen_func(
     let mut pac = false;
     let mut saves_fp = false;
     let n_push = p.below(4) as usize;
-    let alloc = match p.below(6) {
+    let alloc = match p.below(8) {
         0 => 0,
         1 => 8 * (1 + p.below(6)),
         2 => 0x100 + 16 * p.below(8),
+        // x86-64: frames of 64 KiB - 512 KiB, around the limits of the 16-bit rule fields
+        // (stack size / 8 and offset / 8 must fit a u16: 0x7fff8 bytes)
+        // x86-64: around the largest frame a frameless-immediate compact-unwind opcode can state
+        // (stack size / 8 <= 255)
+        4 if arch == Arch::X64 => 0x780 + 8 * p.below(24),
+        3 if arch == Arch::X64 => *p.pick(&[0xffc0u64, 0xffe0, 0x10000, 0x10010, 0x3fff0, 0x40000, 0x7ffa0, 0x7ffc0, 0x7ffe0, 0x80000, 0x80010]) + 8 * p.below(4),
         _ => 16 * (1 + p.below(7)),
     };
     let mut epilogue: Vec<Insn> = Vec::new();
